@@ -1,4 +1,5 @@
 from collections import defaultdict
+from copy import copy
 from itertools import count
 from typing import Dict, List, Optional, Set, Tuple, Union
 
@@ -567,6 +568,11 @@ def _replace_constants(commands: List[Union[ICmd, BranchLabel]]):
         if not isinstance(command, ICmd):
             i += 1
             continue
+        # Work on a copy: the same command or operand object may occur more than once
+        # in the list, and each occurrence needs its own registers and `set` commands.
+        command = copy(command)
+        command.operands = list(command.operands)
+        commands[i] = command
         tmp_registers: List[Register] = []
         for j, operand in enumerate(command.operands):
             if (
@@ -587,6 +593,8 @@ def _replace_constants(commands: List[Union[ICmd, BranchLabel]]):
                     attrs = ["start", "stop"]
                 else:
                     continue
+                operand = copy(operand)
+                command.operands[j] = operand
                 for attr in attrs:
                     value = getattr(operand, attr)
                     if isinstance(value, int):
